@@ -79,7 +79,7 @@ Fixpoint dec (fuel : nat) (bs : bytes) {struct fuel} : option (tlv * bytes) :=
         match dec_len r with
         | None => None
         | Some (n, r2) =>
-          match take (N.to_nat n) r2 with
+          match take_n n r2 with
           | None => None
           | Some (content, rest) =>
             if constructed then
